@@ -332,7 +332,7 @@ func (m *Meta) RenameTable(from, to string) *Meta {
 	mu.putSchema(&tsNew)
 	mu.putInfo(m.newInfoTomb(from))
 	mu.putInfo(&tiNew)
-	m.dropFkeys(mu, &ts.Schema)
+	m.dropFkeys(mu, &ts.Schema, true)
 	m.createFkeys(mu, &tsNew.Schema, &tsNew.Schema)
 	return mu.freeze()
 }
@@ -368,7 +368,7 @@ func (m *Meta) Drop(name string) *Meta {
 	} else {
 		mu.putInfo(m.newInfoTomb(name))
 	}
-	m.dropFkeys(mu, &ts.Schema)
+	m.dropFkeys(mu, &ts.Schema, true)
 	return mu.freeze()
 }
 
@@ -720,8 +720,9 @@ func (m *Meta) AlterDrop(ad *schema.Schema) *Meta {
 	mu := newMetaUpdate(m)
 	mu.putSchema(ts)
 	mu.putInfo(ti)
-	m.dropFkeys(mu, ad)
-	updateFkeysIIndex(mu, &ts.Schema)
+	m.dropFkeys(mu, ad, false)
+	// dropFkeys may have replaced the schema (self-referencing foreign key)
+	updateFkeysIIndex(mu, &mu.getSchema(ad.Table).Schema)
 	return mu.freeze()
 }
 
@@ -825,7 +826,11 @@ func inIndex(ts *Schema, col string) bool {
 	return false
 }
 
-func (m *Meta) dropFkeys(mu *metaUpdate, drop *schema.Schema) {
+// dropFkeys removes the FkToHere entries for the foreign keys of drop.Indexes.
+// wholeTable is true when the table itself is going away (drop, rename),
+// in which case self-referencing foreign keys need no update.
+// For alter drop index the table stays, so its own FkToHere must be updated.
+func (m *Meta) dropFkeys(mu *metaUpdate, drop *schema.Schema, wholeTable bool) {
 	// unlike createFkeys
 	// we need to get the actual schema to get the foreign key information
 	schema := &m.GetRoSchema(drop.Table).Schema
@@ -833,7 +838,7 @@ func (m *Meta) dropFkeys(mu *metaUpdate, drop *schema.Schema) {
 	for i := range idxs {
 		idx := schema.FindIndex(idxs[i].Columns)
 		fk := idx.Fk
-		if fk.Table == "" || fk.Table == drop.Table {
+		if fk.Table == "" || (wholeTable && fk.Table == drop.Table) {
 			continue
 		}
 		fkCols := fk.Columns
